@@ -590,13 +590,29 @@ func (fv *FuncVC) equal(a, b *Val) string {
 	}
 	// string compared with a constant: content equality (extensionality instance, quantifier-free)
 	if t != nil && isString(t) {
-		if s, ok := fv.g.strConstValue(b.T); ok && a.T != b.T {
-			fv.strEqConst(a.T, b.T, s)
-		} else if s, ok := fv.g.strConstValue(a.T); ok && a.T != b.T {
-			fv.strEqConst(b.T, a.T, s)
+		x, c := a.T, b.T
+		s, ok := fv.g.strConstValue(c)
+		if !ok {
+			x, c = b.T, a.T
+			s, ok = fv.g.strConstValue(c)
+		}
+		if ok && x != c {
+			if strings.Contains(x, "q!") && len(s) <= 64 {
+				// under a quantifier: use content equality directly
+				return strContentEq(x, s)
+			}
+			fv.strEqConst(x, c, s)
 		}
 	}
 	return eq(a.T, b.T)
+}
+
+func strContentEq(x, s string) string {
+	parts := []string{fmt.Sprintf("(= (slen %s) %d)", x, len(s))}
+	for i := 0; i < len(s); i++ {
+		parts = append(parts, fmt.Sprintf("(= (sat %s %d) %d)", x, i, s[i]))
+	}
+	return and(parts...)
 }
 
 func (g *Gen) strConstValue(term string) (string, bool) {
@@ -942,9 +958,30 @@ func (fv *FuncVC) mapDelete(m, k string, mt *types.Map) {
 }
 
 func (fv *FuncVC) mapCardFacts(m string, mt *types.Map) {
-	_, _, cn, _, _ := fv.mapParts(mt)
-	c := fv.heapGet(cn, "(Array Int Int)")
+	fv.mapCardFactsAt(fv.cur, m, mt)
+}
+
+// mapCardFactsAt: the cardinality of a map is non-negative and is zero exactly when its domain is empty
+// (true of every Go map; the model tracks the cardinality by +-1 updates).
+func (fv *FuncVC) mapCardFactsAt(st *State, m string, mt *types.Map) {
+	if strings.Contains(m, "q!") {
+		return
+	}
+	dn, _, cn, ds, _ := fv.mapParts(mt)
+	c := fv.heapAt(st, cn, "(Array Int Int)")
+	d := fv.heapAt(st, dn, ds)
+	key := c + "|" + d + "|" + m
+	if fv.cardDone == nil {
+		fv.cardDone = map[string]bool{}
+	}
+	if fv.cardDone[key] {
+		return
+	}
+	fv.cardDone[key] = true
+	ks := fv.sortOf(mt.Key())
 	fv.emit(fmt.Sprintf("(assert (>= (select %s %s) 0))", c, m))
+	// keys outside the key type's range are not keys (the domain array is indexed by mathematical integers)
+	fv.emit(fmt.Sprintf("(assert (= (= (select %s %s) 0) (forall ((ck %s)) (! (=> %s (not (select (select %s %s) ck))) :pattern ((select (select %s %s) ck))))))", c, m, ks, fv.typeFactsNoAlloc("ck", mt.Key()), d, m, d, m))
 }
 
 func (fv *FuncVC) execLookup(x *ssa.Lookup) {
@@ -1011,8 +1048,8 @@ func (fv *FuncVC) execNext(x *ssa.Next) {
 	m := it.m.T
 	// ok => k in dom, k not visited ; !ok => every key in dom is visited
 	fv.assume(fmt.Sprintf("(=> %s (and (not (= %s 0)) (select (select %s %s) %s) (not (select %s %s))))", ok, m, d, m, k.T, vis, k.T))
-	fv.assume(fmt.Sprintf("(=> (not %s) (forall ((kk %s)) (! (=> (and (not (= %s 0)) (select (select %s %s) kk)) (select %s kk)) :pattern ((select (select %s %s) kk)) :pattern ((select %s kk)))))",
-		ok, it.ksort, m, d, m, vis, d, m, vis))
+	fv.assume(fmt.Sprintf("(=> (not %s) (forall ((kk %s)) (! (=> (and %s (not (= %s 0)) (select (select %s %s) kk)) (select %s kk)) :pattern ((select (select %s %s) kk)) :pattern ((select %s kk)))))",
+		ok, it.ksort, fv.typeFactsNoAlloc("kk", mt.Key()), m, d, m, vis, d, m, vis))
 	fv.heapSet(it.visited, sort, fmt.Sprintf("(ite %s (store %s %s true) %s)", ok, vis, k.T, vis))
 	v := fv.name("nxt.v", fv.sortOf(mt.Elem()), fmt.Sprintf("(select (select %s %s) %s)", vh, m, k.T))
 	fv.assumeType(v, mt.Elem())
